@@ -188,6 +188,14 @@ pub fn report<const V: u32>(name: &str, epoch: u64) {
         .json("nodes", &nodes)
         .json("imm", &imm)
         .json("weak", &weak_json)
+        .bool("nursery", mmtk::verif::is_nursery_gc(m))
+        .int("totalPages", mmtk::verif::total_pages(m).min(1 << 30) as i64)
+        .json(
+            "spaces",
+            &json_array(mmtk::verif::space_page_counters(m).iter().map(|(n, r, c)| {
+                Obj::raw("").str("n", n).int("r", (*r).min(1 << 30) as i64).int("c", (*c).min(1 << 30) as i64).finish()
+            })),
+        )
         .int("usedPages", (memory_manager::used_bytes(m) >> 12) as i64)
         .int("copied", COPY_COUNT.load(Ordering::Relaxed) as i64);
     #[cfg(feature = "vo_bit")]
